@@ -4,6 +4,7 @@ import CoapVerif.Model.ReplayAbs
 -- DRIVER-OPS: replayst => Coap.Driver.Replay.replaystStep
 -- DRIVER-OPS: sender => Coap.Driver.Replay.senderStep
 -- DRIVER-OPS: validate => Coap.Driver.Replay.validateStep
+-- DRIVER-OPS: nonces => Coap.Driver.Replay.noncesStep
 namespace Coap.Driver.Replay
 open Coap.Replay
 
@@ -15,7 +16,7 @@ def showState (r : Recip) : String :=
 
 /-- `a/e/w/x<piv>` requests, `n<piv>` authentic notification with its own Partial IV, `y<piv>` forged response claiming
 one, `r<k>` / `z<k>` authentic / forged response without Partial IV (same letters as harness/replay.c). -/
-def parseEv (w : String) : Option Msg :=
+def parseMsg (w : String) : Option Msg :=
   match w.toList with
   | k :: rest =>
     match (String.ofList rest).toNat? with
@@ -32,6 +33,17 @@ def parseEv (w : String) : Option Msg :=
     | none => none
   | [] => none
 
+/-- `<x|y|z><piv>.<len>`: a forged message whose ciphertext has `len` bytes (0: no payload at all); without the suffix
+the ciphertext has 14 bytes (authentic ones: whatever the real sender produced, longer than the tag). -/
+def parseEv (w : String) : Option Dgram :=
+  match w.splitOn "." with
+  | [m] => (parseMsg m).map (fun m => ⟨m, 14⟩)
+  | [m, l] =>
+    match parseMsg m, l.toNat? with
+    | some m, some l => if m.authentic then none else some ⟨m, l⟩
+    | _, _ => none
+  | _ => none
+
 def parseAll {α} (f : String → Option α) : List String → Option (List α)
   | [] => some []
   | w :: r => do
@@ -45,10 +57,11 @@ def showOut : ReplaySpec.Out → String
 def showAllowed (l : List ReplaySpec.Out) : String := String.intercalate "/" (l.map showOut)
 
 /-- M's verdict and state after every event, and the outcomes S allows at that point (the monitor follows M). -/
-def replayLoop (cfg : Cfg) : Recip → ReplaySpec.St → List Msg → List String × List String
+def replayLoop (cfg : Cfg) : Recip → ReplaySpec.St → List Dgram → List String × List String
   | _, _, [] => ([], [])
-  | r, s, e :: es =>
-    let x := step cfg r e
+  | r, s, d :: es =>
+    let e := d.msg
+    let x := stepD cfg r d
     let al := ReplaySpec.allowed cfg.window s (msgOf e)
     let m := showVerdict x.2 ++ ":" ++ showState x.1
     if x.2 = .ub then ([m], [showAllowed al])
@@ -114,6 +127,52 @@ def validateStep (args : List String) : String :=
     | .ok r => "M 1:" ++ showState r
     | .rej r => "M 0:" ++ showState r
     | .ub => "M ub"
+  | _ => "bad-op"
+
+/-- `nonces <window> <op>…` (same letters as harness/replay.c; the peer's Sender ID is 01, the endpoint's own 02). -/
+def parseNOp (w : String) : Option NOp :=
+  if w = "q" then some .sendReq
+  else match w.toList with
+    | k :: rest =>
+      match (String.ofList rest).splitOn "." with
+      | [t] =>
+        match t.toNat? with
+        | some t =>
+          if k = 'r' then some (.sendRsp t false false)
+          else if k = 'n' then some (.sendRsp t true false)
+          else if k = 'i' then some (.sendRsp t false true)
+          else none
+        | none => none
+      | [t, p] =>
+        match t.toNat?, p.toNat? with
+        | some t, some p =>
+          if k = 'g' then some (.reqIn t ⟨true, p, .none⟩ false)
+          else if k = 'o' then some (.reqIn t ⟨true, p, .none⟩ true)
+          else if k = 'x' then some (.reqIn t ⟨false, p, .none⟩ false)
+          else none
+        | _, _ => none
+      | _ => none
+    | [] => none
+
+def showNonce : Nonce → String
+  | .own p => "02." ++ toString p
+  | .ofReq p => "01." ++ toString p
+
+def showNObs : NObs → String
+  | .verdict v => showVerdict v
+  | .sent piv n => (match piv with | some p => toString p | none => "-") ++ "/" ++ showNonce n
+  | .err => "err"
+
+def noncesStep (args : List String) : String :=
+  match args with
+  | w :: ops =>
+    match w.toNat?, parseAll parseNOp ops with
+    | some w, some ops =>
+      let obs := nrun { window := if w = 0 then 32 else w, b12 := false } Endp.fresh ops
+      let ns := nonces obs
+      "M " ++ String.intercalate " " (obs.map showNObs) ++ " | S " ++
+        (if ns.eraseDups.length = ns.length then "distinct" else "reused")
+    | _, _ => "bad-op"
   | _ => "bad-op"
 
 end Coap.Driver.Replay
